@@ -65,6 +65,41 @@ def check_enum(facts, res):
     return vals
 
 
+def clamp_form(facts, n, env, depth):
+    """normal form of the expression initialising the upper working level; helper functions defined in
+    the library are inlined (one return statement), so `max(0, x)` behind a wrapper is still recognised
+    and `max(0, min(x, H-1))` is not mistaken for it"""
+    n = strip(n)
+    if depth > 6 or n is None:
+        return "?"
+    k = n.get("k")
+    if k == "IntegerLiteral":
+        return str(n["val"])
+    if k == "DeclRefExpr":
+        return env.get(n.get("did"), n.get("name", "?"))
+    if k in ("CXXStaticCastExpr", "CStyleCastExpr", "CXXFunctionalCastExpr", "CXXUnresolvedConstructExpr", "CXXConstructExpr", "InitListExpr", "ParenListExpr") and len(kids(n)) == 1:
+        return clamp_form(facts, kids(n)[0], env, depth + 1)
+    if k == "BinaryOperator":
+        a, b = [clamp_form(facts, c, env, depth + 1) for c in kids(n)]
+        return "(%s%s%s)" % (a, n.get("op"), b)
+    if k in ("CallExpr", "CXXMemberCallExpr"):
+        nm = tbf.callee_name(n)
+        args = [clamp_form(facts, a, env, depth + 1) for a in tbf.call_args(n)]
+        if nm in ("max", "min") and len(args) == 2:
+            return "%s(%s)" % (nm, ",".join(sorted(args)))
+        if nm == "getTreeHeight":
+            return "H"
+        cands = [g for g in facts.functions if g["name"] == nm and not g.get("inst") and len(g["params"]) == len(args) and tbf.body(g) is not None]
+        if len(cands) == 1:
+            g = cands[0]
+            rets = [r for r in walk(tbf.body(g)) if r.get("k") == "ReturnStmt" and kids(r)]
+            if len(rets) == 1 and len(kids(tbf.body(g))) == 1:
+                env2 = {p["did"]: a for p, a in zip(g["params"], args)}
+                return clamp_form(facts, kids(rets[0])[0], env2, depth + 1)
+        return "%s(%s)" % (nm, ",".join(args))
+    return "?" + str(k)
+
+
 def check_executor(facts, cls, res, expected_flags, weff=None, full=True):
     ex = stages.ExecutorSummary(facts, cls)
     f = tbf.rel(facts.path_of(ex.execute))
@@ -139,14 +174,10 @@ def check_executor(facts, cls, res, expected_flags, weff=None, full=True):
         if not inits:
             continue
         txt = tbf.norm("".join(facts.text(c) for c in inits[0]["c"] if c))
-        fm = stages.FnModel(facts, m) if tbf.body(m) else None
-        ok = False
-        for x in walk(inits[0]["c"][0]):
-            if x.get("k") == "CallExpr" and tbf.callee_name(x) == "max":
-                args = [strip(a) for a in tbf.call_args(x)]
-                lits = [a for a in args if a.get("k") == "IntegerLiteral" and a.get("val") == 0]
-                prm = [a for a in args if a.get("k") == "DeclRefExpr" and a.get("dk") == "ParmVar"]
-                ok = len(lits) == 1 and len(prm) == 1
+        pnames = {p["did"]: "ARG" for p in m["params"] if p["t"].replace("const ", "") in ("long", "int")}
+        form = clamp_form(facts, inits[0]["c"][0], pnames, 0)
+        ok = form == "max(0,ARG)"
+        txt = txt + "  =>  " + form
         res.instance("C12.3.upper-level-clamp", "%s ctor@%d" % (cls, m["l"][1]), facts.loc(m), txt)
         if not ok:
             res.violation("C12.3.upper-level-clamp", tbf.rel(facts.path_of(m)), m["qname"], "stopUpperLevel", m["l"][1],
